@@ -11,8 +11,10 @@ package reg
 
 import (
 	"bufio"
+	"flag"
 	"fmt"
 	"io"
+	"os"
 	"sort"
 	"strings"
 )
@@ -110,4 +112,39 @@ func (o *Out) Finish() {
 		fmt.Fprintf(o.W, "#cov %s %d\n", k, o.cov[k])
 	}
 	o.W.Flush()
+}
+
+// Main is the command line of every per-component driver binary (harness/cmd/gs-<component>):
+//
+//	gs-<component> gen -seed S -n N -tier quick|thorough   > cases.txt
+//	gs-<component> run < cases.txt                          > impl.out
+func Main(component string) {
+	c := Get(component)
+	if c == nil || len(os.Args) < 2 {
+		fmt.Fprintf(os.Stderr, "usage: gs-%s gen|run [flags]\n", component)
+		os.Exit(2)
+	}
+	w := bufio.NewWriterSize(os.Stdout, 1<<20)
+	defer w.Flush()
+	switch os.Args[1] {
+	case "gen":
+		fs := flag.NewFlagSet("gen", flag.ExitOnError)
+		seed := fs.Int64("seed", 1, "PRNG seed")
+		n := fs.Int("n", 100, "number of random cases")
+		tier := fs.String("tier", "quick", "quick|thorough")
+		fs.Parse(os.Args[2:])
+		c.Gen(*seed, *n, *tier, w)
+	case "run":
+		cases, err := ReadCases(bufio.NewReaderSize(os.Stdin, 1<<20))
+		if err != nil {
+			fmt.Fprintln(os.Stderr, "read:", err)
+			os.Exit(2)
+		}
+		out := NewOut(w)
+		c.Run(cases, out)
+		out.Finish()
+	default:
+		fmt.Fprintln(os.Stderr, "unknown mode", os.Args[1])
+		os.Exit(2)
+	}
 }
